@@ -60,15 +60,7 @@ func zzWiring(interpreted bool, nroutes int) {
 		s1 := zzSegs[zzverif.Choice("seg1", 2)]     // a, b
 		s2 := zzSegs[zzverif.Choice("seg2", 4)]     // a, b, :p, :q
 		pat := "/" + s1 + "/" + s2
-		dup := false
-		for _, d := range decls {
-			if d.method == m && d.pattern == pat {
-				dup = true
-			}
-		}
-		if dup {
-			return // the same route declared twice is a program error, not a dispatch question
-		}
+		// the same method and pattern declared twice is equal specificity too: the earlier declaration answers
 		decls = append(decls, zzRouteDecl{m, pat})
 		ret := "{k: " + strconv.Itoa(k)
 		if strings.HasPrefix(s2, ":") {
